@@ -10,7 +10,9 @@
      [L, ..  L finite                             AVTotal; with finite: iff MAX + L finite (else unknown)
      (L, ..  L finite                             delta absorbed at L -> AVPanicsOn []; else as [L, ..
      .., U]  .., U)                               symmetric (-MAX + U, U - delta < U)
-     two bounds, |U - L| finite                   [L,U] (L,U] [L,U) (L,U): see the definition. *)
+     two bounds, |U - L| finite                   [L,U] (L,U] [L,U) (L,U): see the definition.
+   [arb_float_decide_ext] (end of the file) moreover turns the `unknown` of finite + one bound whose
+   sum with MAX overflows into AVPanicsOn (little-endian bytes of MAX). *)
 From NV Require Import Base.Util Base.IntTy Base.FloatBits Base.Float Base.Expr
      Macro.Surface Macro.Ast Sem.Guard Sem.Value Sem.Eval Sem.Bytes Sem.ArbFloat.
 Local Open Scope Z_scope.
@@ -150,4 +152,49 @@ Definition arb_float_decide (d : decl) : arb_verdict :=
       | _ :: _ => AVUnknown
       end
   | _ => AVUnknown
+  end.
+
+(* ---- extension: `finite` beside ONE bound whose sum with the largest finite value overflows --
+   [arb_float_decide] answers AVUnknown there; the input made of the little-endian bytes of MAX is
+   a panic witness (Lemmas/ArbFloatExcl4.v): the base value is MAX, MAX + L (resp. -MAX + U) is not
+   finite and `finite` rejects it.  [arb_float_decide] itself is left as it is (Props/C09.v pins one
+   of its AVUnknown answers); [arb_float_decide_ext] refines its AVUnknown answers only. *)
+Definition dec_max_bytes (is64 : bool) : bytes :=
+  if is64 then [255; 255; 255; 255; 255; 255; 239; 127] else [255; 255; 127; 127].
+
+Definition arb_float_overflow_witness_std (is64 : bool) (d : decl) (vs : list validator) : option bytes :=
+  match arb_nf vs with
+  | Some (true, Some (_, bl), None) =>
+      let L := bval d bl in
+      if f_is_finite is64 L && negb (f_is_finite is64 (f_add is64 (dec_max_finite is64) L))
+      then Some (dec_max_bytes is64) else None
+  | Some (true, None, Some (_, bu)) =>
+      let U := bval d bu in
+      if f_is_finite is64 U && negb (f_is_finite is64 (f_add is64 (fb_neg is64 (dec_max_finite is64)) U))
+      then Some (dec_max_bytes is64) else None
+  | _ => None
+  end.
+
+Definition arb_float_overflow_witness (d : decl) : option bytes :=
+  match d_family d with
+  | FFloat is64 =>
+      match d_sans d with
+      | [] =>
+          match d_validation d with
+          | Some (RVStandard vs) => arb_float_overflow_witness_std is64 d vs
+          | _ => None
+          end
+      | _ :: _ => None
+      end
+  | _ => None
+  end.
+
+Definition arb_float_decide_ext (d : decl) : arb_verdict :=
+  match arb_float_decide d with
+  | AVUnknown =>
+      match arb_float_overflow_witness d with
+      | Some w => AVPanicsOn w
+      | None => AVUnknown
+      end
+  | v => v
   end.
